@@ -177,6 +177,10 @@ package evidence
 //@   requires basic: forall(i, 0, len(evList), evBasic(evList[i]))
 //@   ensures inv: sizeInv(evpool)
 //@   ensures distinct: result == nil ==> forall(i, 0, len(evList), forall(j, 0, i, imethod(evList[j], Hash) != imethod(evList[i], Hash)))
+// ... and every item that gets as far as the duplicate check was either verified in this very call (light client attack
+// evidence always; verify's ghost records what it accepted last) or is already pending (verified when it was added).
+//@   atcall Evidence.Hash checked: (typeis(recv, *types.LightClientAttackEvidence) ==> lastLCAVerified == payload(recv)) &&
+//@     | (!typeis(recv, *types.LightClientAttackEvidence) ==> (isPendingEv(evpool, recv) || lastDupVerified == payload(recv)))
 //@   loop 1 invariant idx: 0 <= rangeindex + 1 && rangeindex + 1 <= len(evList) && len(hashes) == len(evList)
 //@   loop 1 invariant inv: sizeInv(evpool) && evpool.evidenceSize <= old(evpool.evidenceSize) + rangeindex + 1
 //@   loop 1 invariant basic: forall(i, 0, len(evList), evBasic(evList[i]))
